@@ -44,6 +44,9 @@ FILES = {
     "strings.lbl": b"a = \"it's\"\nb = 'say \"hi\"'\nc = NULL\nd = \"END\"\ne = \"multi\n  line\"\nEND\n",
     "garbage.lbl": b"= = ( }\n",
     "leap.lbl": b"t = 23:59:60\nEND\n",
+    # strings whose need for quotes depends on which decoder the encoder is paired with
+    "stringy.lbl": b'a = "12:00:00+01"\nb = "2001-01-01T12:00:00+01:00"\nc = "16#-7F#"\nd = "a+b"\ne = "NULL"\n'
+                   b'f = "1.5"\ng = "inf"\nh = "-16#7F#"\ni = "23:59:60"\nj = "END"\nk = "2001-366"\nEND\n',
 }
 FORMATS = ["PDS3", "ODL", "ISIS", "PVL", "JSON"]
 ROWS = ["PDS3", "ODL", "PVL", "ISIS", "Omni"]
@@ -232,11 +235,11 @@ def parse_report(text, files):
     return res
 
 
-def check_validate(paths):
+def check_validate(paths, flags=()):
     from pvl import pvl_validate
     out = []
-    case = {"tool": "validate", "files": [os.path.basename(p) for p in paths]}
-    r = call_tool(pvl_validate.main, list(paths))
+    case = {"tool": "validate", "files": [os.path.basename(p) for p in paths], "flags": list(flags)}
+    r = call_tool(pvl_validate.main, list(flags) + list(paths))
     if r[0] != "ok":
         out.append({"case": case, "diagnosis": "validate-does-not-complete", "detail": repr(r)[:200]})
         return out, "violation"
@@ -273,10 +276,12 @@ def shard(spec):
                         _record(acc, vs)
         else:
             for combo in payload:
-                vs, status = check_validate([paths[n] for n in combo])
-                acc.n += 1
-                acc.outcomes["validate-" + status] += 1
-                _record(acc, vs)
+                flagsets = [()] if len(combo) > 2 else [(), ("-v",), ("-vv",)]
+                for flags in flagsets:
+                    vs, status = check_validate([paths[n] for n in combo], flags)
+                    acc.n += 1
+                    acc.outcomes["validate-" + status] += 1
+                    _record(acc, vs)
         acc.sample({"kind": kind, "first": payload[0] if payload else None, "files": names[:3]}, cap=1)
     finally:
         shutil.rmtree(tmpdir, ignore_errors=True)
@@ -318,7 +323,7 @@ def run(ctx):
     cov = {
         "evaluations": acc.n, "distinct_nontrivial": acc.nontrivial,
         "rule": "%d files (%d generated + corpus picks + their truncated variants); pvl_translate: every file x %d "
-                "formats x {stdout, output file}; pvl_validate: every single file, %d ordered pairs%s; every cell of "
+                "formats x {stdout, output file}; pvl_validate: every single file and %d ordered pairs, each with no flag, -v and -vv%s; every cell of "
                 "every report compared with fresh parser/encoder objects; non-trivial = invocation completed (or failed "
                 "like the library) and all comparisons agreed"
                 % (len(names), len(FILES), len(FORMATS), len(pairs),
@@ -337,6 +342,6 @@ def replay(case):
         paths = setup_files(tmpdir)
         if case["tool"] == "translate":
             return check_translate(paths[case["file"]], case["format"], case["to_file"], tmpdir)[0]
-        return check_validate([paths[n] for n in case["files"]])[0]
+        return check_validate([paths[n] for n in case["files"]], case.get("flags", ()))[0]
     finally:
         shutil.rmtree(tmpdir, ignore_errors=True)
